@@ -37,8 +37,13 @@ class Gen:
         self.in_generator = False
         self.budget = 400        # node budget per program
 
+    KEYWORD_PREFIXES = ["if", "else", "then", "and", "or", "not", "in", "as", "for", "while", "until", "loop", "match", "switch", "try", "catch", "finally", "throw", "return", "yield",
+                        "break", "continue", "let", "export", "import", "from", "null", "true", "false", "self", "debug", "await", "const"]
     def fresh(self, prefix="v"):
+        """Some identifiers begin with a keyword (`ifv3`, `elsea7`, `notx2`): a keyword is only a keyword up to a word boundary."""
         self.uid += 1
+        if prefix != "p" and self.rng.random() < 0.12:
+            prefix = self.KEYWORD_PREFIXES[self.rng.randrange(len(self.KEYWORD_PREFIXES))] + prefix
         return "%s%d" % (prefix, self.uid)
 
     def chance(self, p):
@@ -98,7 +103,7 @@ class Gen:
             op = self.pick(["+", "-", "*", "+", "-", "%", "^"])
             a = self.expr("int", sc, d + 1)
             if op == "^":
-                b = ("int", self.rng.randint(0, 5))
+                b = ("int", self.rng.randint(0, 5)) if self.chance(0.93) else ("int", self.pick([63, 64, 65, 4294967295, 4294967296, 4294967297, 4611686018427387904, 9223372036854775807]))
             elif op == "%":
                 b = self.expr("int", sc, d + 1)
             else:
@@ -226,8 +231,8 @@ class Gen:
         """RHS roots that are safe to compile straight into a live variable's register (SG-A1)."""
         if e[0] == "paren":
             return self.transparent(e[1])
-        return e[0] in ("var", "int", "float", "null", "bool", "call", "mcall", "trace", "index", "neg") or \
-            (e[0] == "bin" and e[1] in ("+", "-", "*", "/", "%", "^"))
+        return e[0] in ("var", "int", "float", "null", "bool", "call", "mcall", "trace", "index", "neg", "cmpchain") or \
+            (e[0] == "bin" and e[1] in ("+", "-", "*", "/", "%", "^", "<", "<=", ">", ">=", "==", "!="))
 
     def assign_stmts(self, sc, name, kind, e, live):
         """v = E, routing through a temporary when the recorded shape F-A1 would be hit."""
@@ -245,8 +250,40 @@ class Gen:
             return self.pick(["Number", "String", "List", "Map", "Bool", "Tuple", "Null", "Callable"])
         return self.pick(self.HINTS[kind])
 
+    def self_chain(self, sc, d):
+        """t = <number>; t = a < t < b: the assignment target is an operand of the comparison chain that is compiled into it."""
+        t = self.fresh("t")
+        first = [("assign", ("var", t), self.num(sc, d + 1))]
+        n = self.rng.randint(3, 4)
+        operands = [self.maybe_trace(self.num(sc, d + 1)) for _ in range(n)]
+        for k in self.rng.sample(range(n), self.rng.randint(1, 2)):
+            operands[k] = ("var", t)
+        ops = [self.pick(["<", "<=", ">", ">="]) for _ in range(n - 1)]      # (== and != bind less tightly: not part of one chain)
+        sc.vars[t] = Var(t, "bool")
+        return first + [("assign", ("var", t), ("cmpchain", operands, ops)), ("print", [("var", t)])]
+
+    def self_opassign(self, sc, d):
+        """a = (l[0] += a) / a = (m.k -= a): the value assigned to `a` is the updated element, the right-hand side is `a` itself."""
+        a, c = self.fresh("a"), self.fresh("c")
+        op = self.pick(["+", "-", "*"])
+        if self.chance(0.5):
+            init = ("list", [self.lit_int(), self.lit_int()])
+            target = ("index", ("var", c), ("int", self.rng.randint(0, 1)))
+            sc.vars[c] = Var(c, "list", protected=True)
+        else:
+            init = ("map", [("k", self.lit_int())])
+            target = ("access", ("var", c), "k")
+            sc.vars[c] = Var(c, "map", protected=True)
+        sc.vars[a] = Var(a, "int")
+        rhs = ("var", a) if self.chance(0.7) else ("bin", "+", ("var", a), ("int", 1))
+        return [("assign", ("var", c), init), ("assign", ("var", a), self.lit_int()), ("assign", ("var", a), ("paren", ("opassign", op, target, rhs))), ("print", [("var", a), ("var", c)])]
+
     def stmt(self, sc, d):
         self.budget -= 1
+        if self.chance(0.03):
+            return self.self_chain(sc, d)
+        if self.chance(0.02):
+            return self.self_opassign(sc, d)
         r = self.rng.random()
         vs = [v for v in sc.all() if not v.protected and v.kind in KINDS]
         if r < 0.16 or not vs:
